@@ -1,13 +1,319 @@
-import GrinVerif.Lemmas.PoolNet
-/-! C14 — the transaction pool holds a jointly valid, fee-paying, mineable set (first theorems). -/
+import GrinVerif.Lemmas.PoolBlock
+/-! C14 — the transaction pool always holds a jointly valid, fee-paying, mineable set.
+
+Model: `GrinVerif/Model/Pool.lean` (pool/src/pool.rs, pool/src/transaction_pool.rs).
+Specification: `GV.Pool.JointlyValid` — applying all transactions together to the unspent set of
+the head yields a set again (every spend is covered by a distinct existing or created instance,
+no commitment ends up twice) and every transaction conserves value.  Histories: `GV.Pool.Op`,
+`step`, `run` — submissions (stem / fluff, any transaction), new heads with `reconcile_block`
+(any new unspent set: next block or reorg), `reconcile_reorg_cache`, evictions, cache truncation.
+
+What is proved, and what is not (eviction, over-capacity admission, reorg to a lower height) is
+stated explicitly below, each with a kernel-checked witness. -/
 namespace GV.Props.C14
 open GV.Pool
 
-/-- The check `Pool::add_to_pool` performs — aggregate everything with cut-through, validate the
-aggregate against the head — is sound for the specification: whatever list of transactions
-passes it is `NetOK` (the counting core of `JointlyValid`). -/
+/-! ## the check the pool performs is sound for the specification -/
+
+/-- `Pool::add_to_pool` / `validate_raw_txs` accept a list of transactions when its aggregate
+(cut-through applied) validates against the head.  Whatever passes is `NetOK`: the counting core
+of `JointlyValid`. -/
 theorem aggregate_check_sound {c : Ctx} {w : Weighting} {txs : List Tx} {a : Tx}
     (ha : aggregate txs = .ok a) (hv : validateRawTx c w a = none) : NetOK (utxoIds c) txs :=
   netOK_of_aggregate ha hv
+
+/-- With fresh output ids (no commitment created twice, none equal to an unspent one) `NetOK`
+is the plain-language statement: no output is spent twice, and every input is unspent at the head
+or created by another transaction of the list. -/
+theorem netOK_plain_reading {utxo : List Nat} {txs : List Tx} (h : NetOK utxo txs)
+    (fresh : (allOuts txs).Nodup ∧ ∀ o ∈ allOuts txs, o ∉ utxo) :
+    (allIns txs).Nodup ∧ ∀ i ∈ allIns txs, i ∈ utxo ∨ i ∈ allOuts txs :=
+  netOK_plain h fresh
+
+/-- the executable oracle used by the driver decides the specification -/
+theorem oracle_decides_spec (outs : List GV.Chain.OutDef) (utxo : List Nat) (txs : List Tx) :
+    jointlyValidB outs utxo txs = true ↔ JointlyValid outs utxo txs :=
+  jointlyValidB_iff outs utxo txs
+
+/-! ## `pool_inv` -/
+
+/-- The invariant implies the property: the txpool is jointly valid against the head, and the
+stempool together with the txpool likewise. -/
+theorem inv_gives_property {c : Ctx} {s : TxPool} (h : Inv c s) :
+    JointlyValid c.outs (utxoIds c) s.txpool.txs ∧
+    JointlyValid c.outs (utxoIds c) (s.stempool.txs ++ s.txpool.txs) :=
+  inv_jointlyValid h
+
+/-- one operation — a submission of ANY transaction (stem or fluff, relay accepting or not) while
+the txpool is not over `max_pool_size`, a new head with ANY unspent set and block content
+(`reconcile_block`), `reconcile_reorg_cache`, truncation — preserves the invariant -/
+theorem pool_inv_step (cs : Ctx × TxPool) (op : Op) (hInv : Inv cs.1 cs.2) (hne : ¬ evicts cs op) :
+    Inv (step cs op).1 (step cs op).2 :=
+  step_inv cs op hInv hne
+
+/-- **pool_inv**: after any history of pool operations in which no eviction is triggered, starting
+from the empty pool (or any state satisfying the invariant), the txpool and stempool ∪ txpool are
+jointly valid against the current head. -/
+theorem pool_inv (cs : Ctx × TxPool) (ops : List Op) (hInv : Inv cs.1 cs.2) (hne : NoEvict cs ops) :
+    JointlyValid (run cs ops).1.outs (utxoIds (run cs ops).1) (run cs ops).2.txpool.txs ∧
+    JointlyValid (run cs ops).1.outs (utxoIds (run cs ops).1)
+      ((run cs ops).2.stempool.txs ++ (run cs ops).2.txpool.txs) :=
+  inv_jointlyValid (run_inv cs ops hInv hne)
+
+theorem pool_inv_from_empty (c : Ctx) (ops : List Op) (hne : NoEvict (c, {}) ops) :
+    JointlyValid (run (c, {}) ops).1.outs (utxoIds (run (c, {}) ops).1) (run (c, {}) ops).2.txpool.txs ∧
+    JointlyValid (run (c, {}) ops).1.outs (utxoIds (run (c, {}) ops).1)
+      ((run (c, {}) ops).2.stempool.txs ++ (run (c, {}) ops).2.txpool.txs) :=
+  pool_inv (c, {}) ops (inv_empty c) hne
+
+/-- Whatever happened before — evictions included — every entry of the txpool, the stempool and
+the reorg cache passed standalone validation (`Transaction::validate(AsTransaction)`: weight
+limit, signatures, range proofs, kernel sums): no history admits an invalid or over-weight
+transaction. -/
+theorem entries_always_valid (c : Ctx) (ops : List Op) :
+    AllValid (run (c, {}) ops).1 (run (c, {}) ops).2 :=
+  run_allValid (c, {}) ops (fun e he => by simp at he)
+
+/-- …and therefore the next block (or reorg) re-establishes the invariant after ANY history,
+evictions included: `reconcile_block` re-validates everything against the new head. -/
+theorem pool_recovers_at_next_block (c : Ctx) (ops : List Op) (head : GV.Chain.UState) (ver : Nat)
+    (ins kers : List Nat) :
+    Inv (run (c, {}) (ops ++ [.block head ver ins kers])).1 (run (c, {}) (ops ++ [.block head ver ins kers])).2 := by
+  simp only [run, List.foldl_append, List.foldl_cons, List.foldl_nil]
+  exact reconcileBlock_inv ins kers (allValid_indep_head head ver (entries_always_valid c ops))
+
+/-! ## eviction -/
+
+/-- **Eviction** with the hypothesis the proof forces: removing transaction `t` keeps the pool
+jointly valid provided no remaining transaction spends an output of `t` and none re-creates an
+input of `t`.  `bucket_transactions` does NOT guarantee this (next theorems). -/
+theorem evict_preserves {c : Ctx} {p : Pool} {t : Tx}
+    (h : JointlyValid c.outs (utxoIds c) p.txs) (hself : ∀ o ∈ t.outs, o ∉ t.ins)
+    (hout : ∀ o ∈ t.outs, o ∉ allIns (Pool.txs (p.filter (fun e => e.tx != t))))
+    (hin : ∀ i ∈ t.ins, i ∉ allOuts (Pool.txs (p.filter (fun e => e.tx != t)))) :
+    JointlyValid c.outs (utxoIds c) (Pool.txs (p.filter (fun e => e.tx != t))) := by
+  rw [jointlyValid_iff] at h ⊢
+  rw [txs_filter] at hout hin ⊢
+  refine ⟨netOK_filter_ne h.1 hself hout hin, ?_⟩
+  intro x hx
+  exact h.2 x (List.mem_filter.mp hx).1
+
+/-! ### witness 1 (DESIGN §9 item 7)
+(definitions first; the non-vacuity example of `evict_preserves` follows them) -/
+
+/-! ### witness 1 (DESIGN §9 item 7): a child with parents in two buckets -/
+
+def od (id v : Nat) : GV.Chain.OutDef := { id, cb := false, v }
+def pk (id fee : Nat) : PKer := { kid := id, ker := .plain fee }
+
+/-- head: outputs 1, 2, 3 unspent (1000 each); `max_pool_size = 2`, fee base 1 -/
+def wc : Ctx where
+  cfg := { maxPool := 2, feeBase := 1 }
+  outs := [od 1 1000, od 2 1000, od 3 1000, od 11 900, od 12 975, od 13 1775, od 14 900]
+  head := { utxo := [(1, 0, false), (2, 0, false), (3, 0, false)], nrd := [], height := 5 }
+  ver := 3
+
+/-- A: fee rate 4 -/ def wA : Tx := { ins := [1], outs := [11], kers := [pk 1 100] }
+/-- B: fee rate 1 -/ def wB : Tx := { ins := [2], outs := [12], kers := [pk 2 25] }
+/-- C spends an output of A and one of B -/ def wC : Tx := { ins := [11, 12], outs := [13], kers := [pk 3 100] }
+def wD : Tx := { ins := [3], outs := [14], kers := [pk 4 100] }
+def wOps : List Op :=
+  [.submit .broadcast wA false true, .submit .broadcast wB false true, .submit .broadcast wC false true]
+
+/-- non-vacuity of `evict_preserves`: evicting D from [A, D] (independent transactions) -/
+example : JointlyValid wc.outs (utxoIds wc)
+    (Pool.txs (([⟨wA, .broadcast⟩, ⟨wD, .broadcast⟩] : Pool).filter (fun e => e.tx != wD))) :=
+  evict_preserves (c := wc) (p := [⟨wA, .broadcast⟩, ⟨wD, .broadcast⟩]) (t := wD)
+    ((jointlyValidB_iff _ _ _).mp (by decide)) (by decide) (by decide) (by decide)
+
+/-- the three submissions evict nothing, so the invariant holds before the fourth -/
+theorem witness1_before : Inv (run (wc, {}) wOps).1 (run (wc, {}) wOps).2 :=
+  run_inv (wc, {}) wOps (inv_empty wc) (by decide)
+
+/-- **the invariant is NOT preserved by eviction**: the pool now holds 3 > `max_pool_size`
+entries, so admitting D evicts; `bucket_transactions` skipped C (two parents), the last bucket is
+B's, B is evicted, and the txpool [A, C, D] holds C whose input 12 is neither unspent nor created
+in the pool. -/
+theorem evict_breaks_pool_inv :
+    (step (run (wc, {}) wOps) (.submit .broadcast wD false true)).2.txpool.txs = [wA, wC, wD] ∧
+    ¬ JointlyValid wc.outs (utxoIds wc) (step (run (wc, {}) wOps) (.submit .broadcast wD false true)).2.txpool.txs := by
+  constructor
+  · decide
+  · rw [← jointlyValidB_iff]; decide
+
+/-! ### witness 2: no multi-parent transaction needed
+
+A child put in its own bucket (it would lower the fee rate) still registers its outputs under its
+*parent's* bucket position, so a grandchild is aggregated into the parent's bucket and the child
+— on which the grandchild depends — is the last transaction of the last bucket. -/
+
+def vc : Ctx where
+  cfg := { maxPool := 50, feeBase := 1 }
+  outs := [od 1 10000, od 11 9000, od 12 8975, od 13 6975]
+  head := { utxo := [(1, 0, false)], nrd := [], height := 5 }
+  ver := 3
+/-- fee rate 40 -/ def vA : Tx := { ins := [1], outs := [11], kers := [pk 1 1000] }
+/-- child of A, fee rate 1 -/ def vB : Tx := { ins := [11], outs := [12], kers := [pk 2 25] }
+/-- child of B, fee rate 80 -/ def vC : Tx := { ins := [12], outs := [13], kers := [pk 3 2000] }
+def vOps : List Op :=
+  [.submit .broadcast vA false true, .submit .broadcast vB false true, .submit .broadcast vC false true]
+
+theorem evict_breaks_single_parent_chain :
+    Inv (run (vc, {}) vOps).1 (run (vc, {}) vOps).2 ∧
+    (step (run (vc, {}) vOps) .evict).2.txpool.txs = [vA, vC] ∧
+    ¬ JointlyValid vc.outs (utxoIds vc) (step (run (vc, {}) vOps) .evict).2.txpool.txs := by
+  refine ⟨run_inv (vc, {}) vOps (inv_empty vc) (by decide), by decide, ?_⟩
+  rw [← jointlyValidB_iff]; decide
+
+/-! ## admission -/
+
+/-- fee below the minimum for the weight (`shifted_fee < weight × accept_fee_base`), txpool not
+over `max_pool_size`: refused and the pool is unchanged.  (`entryOf`: the transaction itself for
+stem, its deaggregated form for fluff; both stem values because a stem transaction already in the
+stempool is re-submitted as fluff.) -/
+theorem admission_low_fee {c : Ctx} {s : TxPool} (src : Src) (tx : Tx) (stem stemOk : Bool)
+    (hcap : s.txpool.length ≤ c.cfg.maxPool)
+    (hfee : ∀ st e, entryOf s src tx st = .ok e → e.tx.shiftedFee < e.tx.acceptFee c.cfg) :
+    ∃ er, s.addToPool c src tx stem stemOk = (s, some er) := by
+  unfold TxPool.addToPool
+  split
+  · exact addCore_refuses_low_fee src tx false stemOk hcap (hfee false)
+  · exact addCore_refuses_low_fee src tx stem stemOk hcap (hfee stem)
+
+/-- standalone-invalid transactions (bad signature, range proof, kernel sum, duplicate or
+cut-through violating body, coinbase kernel, over the weight limit) are refused and the pool is
+unchanged, whatever its fill state -/
+theorem admission_invalid {c : Ctx} {s : TxPool} (src : Src) (tx : Tx) (stem stemOk : Bool)
+    (hbad : ∀ st e, entryOf s src tx st = .ok e → e.tx.validate c .asTransaction ≠ none) :
+    ∃ er, s.addToPool c src tx stem stemOk = (s, some er) := by
+  unfold TxPool.addToPool
+  split
+  · exact addCore_refuses_invalid src tx false stemOk (hbad false)
+  · exact addCore_refuses_invalid src tx stem stemOk (hbad stem)
+
+/-- over the transaction weight limit ⇒ standalone invalid (`TooHeavy`) -/
+theorem admission_over_weight {c : Ctx} {s : TxPool} (src : Src) (tx : Tx) (stem stemOk : Bool)
+    (hw : ∀ st e, entryOf s src tx st = .ok e → e.tx.weight > c.cfg.maxTxW) :
+    ∃ er, s.addToPool c src tx stem stemOk = (s, some er) :=
+  admission_invalid src tx stem stemOk (fun st e he => validate_too_heavy (hw st e he))
+
+/-- non-vacuity of the admission theorems: below capacity, a transaction paying 24 for weight 25,
+one with a signature fault and one over the weight limit are refused with the expected errors -/
+def lowTx : Tx := { ins := [3], outs := [14], kers := [pk 4 24] }
+def badSigTx : Tx := { wD with tags := ["sig"] }
+def heavyTx : Tx := { ins := [3], outs := List.range 11, kers := [pk 4 5000] }
+example : (({} : TxPool).addToPool wc .broadcast lowTx false true).2 = some "LowFee" := by decide
+example : (({} : TxPool).addToPool wc .broadcast badSigTx true true).2 = some "InvalidTx:IncorrectSignature" := by decide
+example : (({} : TxPool).addToPool wc .broadcast heavyTx false true).2 = some "InvalidTx:TooHeavy" := by decide
+example : (({} : TxPool).addToPool wc .broadcast wD false true).2 = none := by decide
+
+/-- **the capacity hypothesis of `admission_low_fee` is needed**: `is_acceptable` reports
+`OverCapacity` before it looks at the fee and `add_to_pool` reads that as "admit, then evict".
+Here (`max_pool_size = 1`, A and B pooled) a transaction paying fee 1 for weight 26 is admitted,
+and since it has two parents the eviction removes B instead of it. -/
+def lc : Ctx := { wc with cfg := { maxPool := 1, feeBase := 1 }, outs := wc.outs ++ [od 15 1874] }
+def lowChild : Tx := { ins := [11, 12], outs := [15], kers := [pk 5 1] }
+def lOps : List Op := [.submit .broadcast wA false true, .submit .broadcast wB false true]
+
+theorem low_fee_admitted_over_capacity :
+    lowChild.shiftedFee < lowChild.acceptFee lc.cfg ∧
+    ((run (lc, {}) lOps).2.addToPool lc .broadcast lowChild false true).2 = none ∧
+    ((run (lc, {}) lOps).2.addToPool lc .broadcast lowChild false true).1.txpool.txs = [wA, lowChild] := by
+  decide
+
+/-! ## the mineable set -/
+
+/-- **mineable_ok**: what `prepare_mineable_transactions` returns consists of pool transactions,
+is jointly valid against the head, and its aggregate (the block body before the coinbase is added)
+passed `validate_raw_tx` under the miner's weight limit: its weight plus the coinbase's 24 is at
+most min(`max_block_weight`, `mineable_max_weight`). Needs no invariant: holds in every state
+whose entries are standalone valid — i.e. after any history, evictions included. -/
+theorem mineable_ok {c : Ctx} {s : TxPool} {txs : List Tx} (hv : AllValid c s)
+    (h : s.prepareMineable c = .ok txs) :
+    (∀ t ∈ txs, t ∈ s.txpool.txs) ∧ JointlyValid c.outs (utxoIds c) txs ∧
+    (txs = [] ∨ ∃ a, aggregate txs = .ok a ∧ validateRawTx c (.asLimited c.cfg.mineW) a = none ∧
+       a.weight ≤ min c.cfg.maxBlockW c.cfg.mineW - 24) := by
+  unfold TxPool.prepareMineable Pool.prepareMineable at h
+  obtain ⟨hset, hmem⟩ := validateRawTxs_spec c _ _ [] txs (Or.inl rfl) h
+  have hm : ∀ t ∈ txs, t ∈ s.txpool.txs := by
+    intro t ht
+    rcases hmem t ht with h | h
+    · simp at h
+    · exact bucketTransactions_mem c _ _ t h
+  refine ⟨hm, ?_, ?_⟩
+  · rw [jointlyValid_iff]
+    constructor
+    · rcases hset with h | ⟨a, ha, hva⟩
+      · subst h; exact netOK_nil _
+      · exact netOK_of_aggregate ha hva
+    · intro t ht
+      have := hm t ht
+      simp only [Pool.txs, List.mem_map] at this
+      obtain ⟨e, he, rfl⟩ := this
+      exact (validate_shape (hv e (Or.inl he))).2.2.2
+  · rcases hset with h | ⟨a, ha, hva⟩
+    · exact Or.inl h
+    · right
+      refine ⟨a, ha, hva, ?_⟩
+      have := validate_weight (validateRawTx_validate hva)
+      simp only [overWeight, maxWeight, decide_eq_false_iff_not, Nat.not_lt] at this
+      exact this
+
+theorem mineable_ok_after_any_history (c : Ctx) (ops : List Op) {txs : List Tx}
+    (h : (run (c, {}) ops).2.prepareMineable (run (c, {}) ops).1 = .ok txs) :
+    JointlyValid (run (c, {}) ops).1.outs (utxoIds (run (c, {}) ops).1) txs :=
+  (mineable_ok (entries_always_valid c ops) h).2.1
+
+/-- **mineable_block_accepted**: the block a miner assembles from a non-empty mineable set the way
+`mine_block.rs::build_block` does (aggregate with cut-through, coinbase output `cb` paying reward
++ fees, coinbase kernel) passes the chain model's `validateBody` and `applyBlock` on the head and
+is within the block weight limit — under the side conditions that admission checked when each
+transaction entered but that `reconcile` does not re-check: the kernels' lock heights are at most
+the next height and no spent coinbase is immature at the next height (see
+`reorg_to_lower_height_keeps_locked_tx` for how a reorg can falsify them); for sets without NRD
+kernels; `cb` a fresh id. -/
+theorem mineable_block_accepted {c : Ctx} {s : TxPool} {txs : List Tx} {cb : Nat} (hv : AllValid c s)
+    (h : s.prepareMineable c = .ok txs) (hne : txs ≠ []) (hw : 24 ≤ min c.cfg.maxBlockW c.cfg.mineW) :
+    ∃ a, aggregate txs = .ok a ∧ a.weight + 24 ≤ min c.cfg.maxBlockW c.cfg.mineW ∧
+      (a.lockHeight ≤ c.head.height + 1 → a.hasNrd = false → immatureCoinbase c a.ins = false →
+       cb ∉ a.ins → cb ∉ a.outs → c.head.has cb = false → (∀ x ∈ c.outs, x.id ≠ cb) →
+        GV.Chain.validateBody { maturity := c.cfg.maturity }
+          (c.outs ++ [{ id := cb, cb := true, v := ({ maturity := c.cfg.maturity } : GV.Chain.Params).reward + a.fee }])
+          (mkBlock c a cb)
+          (GV.Chain.sumVals (c.outs ++ [{ id := cb, cb := true, v := ({ maturity := c.cfg.maturity } : GV.Chain.Params).reward + a.fee }])
+            (mkBlock c a cb).ins) = none ∧
+        ∃ s', GV.Chain.applyBlock { maturity := c.cfg.maturity } c.head (mkBlock c a cb) = .ok s') := by
+  rcases (mineable_ok hv h).2.2 with h0 | ⟨a, ha, hva, hwt⟩
+  · exact absurd h0 hne
+  · refine ⟨a, ha, by omega, ?_⟩
+    intro hlock hnrd hmat hcb1 hcb2 hcb3 hfresh
+    exact ⟨mkBlock_body_valid hva hlock hnrd hcb1 hcb2 hfresh, mkBlock_applies hva hmat hnrd hcb3⟩
+
+/-- non-vacuity of `mineable_block_accepted`: witness 1's state before the eviction -/
+example : mineVerdict (run (wc, {}) wOps).1 [wA, wB] = true := by decide
+
+/-- non-vacuity: in witness 1's state before the eviction the mineable set is [A, B] (C is
+skipped by the buckets) -/
+example : ((run (wc, {}) wOps).2.prepareMineable (run (wc, {}) wOps).1).toOption = some [wA, wB] := by decide
+
+/-- **lock heights and coinbase maturity are NOT re-checked by `reconcile`**: after a reorg onto
+a head of lower height a height-locked transaction admitted earlier stays in the pool and is
+offered for mining, and the chain model rejects the block built from it. (`mineVerdict` runs
+`GV.Chain.validateBody` / `applyBlock` on the assembled block.) -/
+def rc : Ctx where
+  cfg := { maxPool := 50, feeBase := 1 }
+  outs := [od 1 1000, od 11 900]
+  head := { utxo := [(1, 0, false)], nrd := [], height := 9 }
+  ver := 4
+def locked : Tx := { ins := [1], outs := [11], kers := [{ kid := 1, ker := .hl 100 10 }] }
+def rOps : List Op :=
+  [.submit .broadcast locked false true,
+   .block { utxo := [(1, 0, false)], nrd := [], height := 8 } 3 [] [], .reorgCache]
+
+theorem reorg_to_lower_height_keeps_locked_tx :
+    ((run (rc, {}) rOps).2.prepareMineable (run (rc, {}) rOps).1).toOption = some [locked] ∧
+    mineVerdict (run (rc, {}) rOps).1 [locked] = false ∧
+    mineVerdict rc [locked] = true := by
+  decide
 
 end GV.Props.C14
